@@ -700,7 +700,7 @@ def _contribution(ctx, f, S, pv, stmts, penv, acc_masks):
                     out.append(("mask", st.value))
         if isinstance(st, ast.Assign) and len(st.targets) == 1 and isinstance(st.targets[0], ast.Subscript) and U(st.targets[0].value) in acc_masks:
             if isinstance(st.value, ast.Constant) and st.value.value is True:
-                ix = inline(st.targets[0].slice, env)
+                ix = inline(inline(st.targets[0].slice, env), fenv_)          # (a function-level `positions = np.arange(S.size)` is read through)
                 whole_ix = (f"np.flatnonzero({pv}.selection_vector)", f"np.arange({S}.size)[{pv}.selection_vector]", f"np.where({pv}.selection_vector)[0]",
                             f"np.nonzero({pv}.selection_vector)[0]", f"{pv}.selection_vector")
                 out.append(("whole", None) if U(ix).replace(" ", "") in whole_ix else ("rows", ix))
@@ -783,7 +783,9 @@ def r4(ctx):
                 and U(size) == target and U(ch[0].func.value) == "rng"
             # what is kept must be exactly the drawn rows
             kept = con["gt"][0][1]
-            ok = ok and U(inline(kept, {k: v for k, v in genv0.items()})).replace(" ", "") == U(inline(ch[0], genv0)).replace(" ", "")
+            full_env = dict(genv0)
+            full_env.update({k: v for k, v in fenv.items() if k not in (S, pv, "rng")})          # both sides read through the same definitions, the threshold's included
+            ok = ok and U(inline(inline(kept, genv0), full_env)).replace(" ", "") == U(inline(inline(ch[0], genv0), full_env)).replace(" ", "")
         ctx.check("R4", f"{f.site()}::subsample-large", ok, f"larger plates keep `{target}` drawn rows of their own (no-duplication is C11.R3's clause)",
                   f"a larger plate is not reduced to `{target}` rows drawn among its own rows (rng.choice(rows of the plate, {target}))")
     # optimal size
